@@ -17,7 +17,7 @@ def seq_jobs(qmax, tiers, suffix, to):
       Job("c02.trypass" + suffix, TU, "h_trypass", replace=LOCKS, defines=d, cbmc=uw, tiers=tiers, fuc=["myth_queue_trypass"], timeout=to, mem_gb=12, note=n),
     ]
 HS = ["myth_wsqueue_rwbarrier/fence_contract", "myth_wsqueue_lock_lock/lock_contract", "myth_wsqueue_lock_unlock/unlock_contract", "env_thieves/env_thieves"]
-JOBS = seq_jobs(64, ("quick",), "", 300) + seq_jobs(131072, ("thorough",), ".full", 1800) + [
+JOBS = seq_jobs(64, ("quick",), "", 300) + seq_jobs(512, ("thorough",), ".512", 1800) + [
   Job("c02.pop_vs_thieves", "c02_handshake.c", "h_pop_vs_thieves", replace=HS, defines=["-DQMAX=64"], cbmc=["--unwind", "70", "--unwinding-assertions"],
       fuc=["myth_queue_pop"], timeout=300, tiers=("quick",),
       note="owner pop against the exact SC model of all concurrent thieves; capacity symbolic in [2,64]"),
